@@ -350,6 +350,8 @@ func c11Run(s *sim.Sim, p *sim.Params) {
 		k       int
 		twoRoutes bool
 		hangsUp   bool
+		offs      []time.Duration // when each arrival of the plan started, relative to the client's start
+		replay    bool
 	}
 	plans := make([]clientPlan, nclients)
 	v6 := s.Choose(sim.SWork, 4) == 0 // IPv6 peers whose addresses share their leading groups
@@ -411,9 +413,19 @@ func c11Run(s *sim.Sim, p *sim.Params) {
 	}
 	runClient := func(y *c11sys, ci int, pl *clientPlan, out *[]c11rec) func() {
 		return func() {
-			for _, a := range pl.plan {
-				if a.gap > 0 {
-					s.Sleep(a.gap)
+			t0 := s.Now()
+			for ai, a := range pl.plan {
+				if pl.replay {
+					// the reference run: every arrival at the instant (relative to the client's
+					// start) at which it happened in the concurrent run, late wake-ups included
+					if d := pl.offs[ai] - (s.Now() - t0); d > 0 {
+						s.Sleep(d)
+					}
+				} else {
+					if a.gap > 0 {
+						s.Sleep(a.gap)
+					}
+					pl.offs = append(pl.offs, s.Now()-t0)
 				}
 				if a.par && a.count > 1 {
 					var hs []*sim.Handle
@@ -496,9 +508,12 @@ func c11Run(s *sim.Sim, p *sim.Params) {
 		ci := s.Choose(sim.SWork, nclients)
 		alone := mk()
 		plans[ci].k = 0
+		plans[ci].replay = true
 		var recs2 []c11rec
+		jumps := s.SetClockJumps(false)
 		h := s.Spawn(fmt.Sprintf("client#%d", ci), runClient(alone, ci, &plans[ci], &recs2))
 		s.Wait(h)
+		s.SetClockJumps(jumps)
 		a := c11admitProfile(recs, ci)
 		b := c11admitProfile(recs2, ci)
 		// identities may be shared between clients (same proxy identity): only compare when this client's identities are its own
